@@ -72,7 +72,7 @@ pub fn check(c: &Case) -> Outcome {
             let h = (w[1] - w[0]).abs();
             let is_last = k + 2 == m;
             let lim = if is_last { 1.01 * hm } else { hm };
-            if h > lim * (1.0 + 1e-12) + 1e-12 {
+            if h > lim * (1.0 + 1e-12) + 4.0 * ulp(w[0].abs().max(w[1].abs())) {
                 return Outcome::viol(format!(
                     "{}: accepted step {} of {} has length {:e} > max_step {:e}{} (first_step={:?})",
                     desc, k, m - 1, h, hm, if is_last { " (final step, 1% stretch allowed)" } else { "" }, first_step
@@ -168,7 +168,7 @@ pub fn check(c: &Case) -> Outcome {
 }
 
 pub fn strategy() -> BoxedStrategy<Case> {
-    (
+    let general = (
         // slow dynamics: the controller wants long steps
         prob_spec(5, 0.05, 2.0),
         span_mid(),
@@ -179,8 +179,26 @@ pub fn strategy() -> BoxedStrategy<Case> {
         proptest::option::weighted(0.5, 1usize..300),
         any::<bool>(),
     )
-        .prop_map(|(prob, span, method, (rtol, atol), max_step, first_step, max_steps, analytic_jac)| Case { prob, span, method, rtol, atol, max_step, first_step, max_steps, analytic_jac })
-        .boxed()
+        .prop_map(|(prob, span, method, (rtol, atol), max_step, first_step, max_steps, analytic_jac)| Case { prob, span, method, rtol, atol, max_step, first_step, max_steps, analytic_jac });
+    // degenerate starts on a fine time scale: y0 = 0 (constant right-hand side) or f(x0, y0) = 0 (second component at
+    // rest), spans of 1e-8..1e-4, max_step a small fraction of the span, automatic first step: the initial-step
+    // heuristics fall back to fixed guesses (1e-6) there, which must still respect max_step
+    let degenerate = (
+        proptest::collection::vec((fr(-2.0, 2.0), any::<bool>()), 1..=3),
+        fr(-8.0, -4.0),
+        any::<bool>(),
+        any_method(),
+        tols(3, 3.0, 8.0),
+        log10(-2.5, -0.5),
+        any::<bool>(),
+        warp(0.3, 2.0),
+    )
+        .prop_map(|(cs, e, back, method, (rtol, atol), max_step, analytic_jac, mut warp)| {
+            warp.k = 0;
+            let blocks = cs.into_iter().map(|(c, rest)| if rest { Block::Const { c: 0.0, u0: 0.0 } } else { Block::Const { c: if c == 0.0 { 1.0 } else { c }, u0: 0.0 } }).collect();
+            Case { prob: ProbSpec { blocks, warp, mix: None, mag2: 0 }, span: mk_span(0.0, 10f64.powf(e), back), method, rtol, atol, max_step: Some(max_step), first_step: None, max_steps: None, analytic_jac }
+        });
+    prop_oneof![24 => general, 1 => degenerate].boxed()
 }
 
 pub fn run(ctx: &Ctx, known: &[Known]) -> Report {
@@ -193,7 +211,7 @@ pub fn run(ctx: &Ctx, known: &[Known]) -> Report {
         id: "C11".into(),
         rule: "cases = slowly varying closed-form problems (intrinsic duration 0.05..2, so the controller wants long steps) x spans x six methods x tolerances x max_step = span*10^U[-3,0.5] x first_step <= min(max_step, 0.9 span) x max_steps in 1..300. The accepted-step sequence comes from one events() call per accepted step; the first trial step from the recorded times of the right-hand-side calls; the budgeted run is compared with its unbudgeted twin. Non-trivial = the max_step clamp was active (an accepted step within 1% of max_step), or the first-trial check ran, or the budget ran out. Distinct = distinct canonical JSON.".into(),
         assumptions: vec![
-            "max_step bound asserted with relative slack 1e-12 and absolute 1e-12; the final step may be 1% longer (documented stretch)".into(),
+            "max_step bound asserted with relative slack 1e-12 and 4 ulp of the time; the final step may be 1% longer (documented stretch)".into(),
             "NeedLargerNMax is required only when the unbudgeted run needs more than max_steps+1 steps and forbidden when it needs at most max_steps (the solvers differ by one in where they test the budget)".into(),
             "RK4 ignores max_step (fixed step) and is exempt from (a)".into(),
         ],
